@@ -80,10 +80,18 @@ def source_hash():
 _spec_hash = None
 
 
+# bump when the logic of a stage in check.py / stages_ext.py changes what a stage produces
+STAGE_VERSION = "7"
+
+
 def spec_hash():
+    """the specification and the generators that turn TLC output into test inputs; the
+    orchestration (this file) is covered by STAGE_VERSION, so that editing an attribution
+    rule does not recompute every model"""
     global _spec_hash
     if _spec_hash is None:
-        _spec_hash = tree_hash([SPEC, os.path.join(ROOT, "tools")], {".tla", ".cfg", ".py"})[:20]
+        tools = [os.path.join(ROOT, "tools", f) for f in ("walks.py", "gen_probes.py", "gen_borrow.py")]
+        _spec_hash = tree_hash([SPEC] + tools, {".tla", ".cfg", ".py"})[:18] + "v" + STAGE_VERSION
     return _spec_hash
 
 
@@ -145,8 +153,25 @@ def run(cmd, timeout, cwd=None, env=None, ok_codes=(0,)):
     return p
 
 
+def point_crates_at_repo():
+    """the three crates depend on the repository by path; VERIF_REPO redirects them (used to run
+    the checks against a snapshot of the repository, e.g. under `vp run --with-repo`)"""
+    import re
+    for crate in ("harness", "memsize", "borrowprobe"):
+        p = os.path.join(ROOT, crate, "Cargo.toml")
+        if not os.path.exists(p):
+            continue
+        text = open(p).read()
+        new = re.sub(r'lru-mem = \{ path = "[^"]*" \}', 'lru-mem = { path = "%s" }' % REPO, text)
+        if new != text:
+            with open(p, "w") as fh:
+                fh.write(new)
+
+
 def build_harness():
     """(re)build the harness against the working tree of the repository"""
+    point_crates_at_repo()
+
     def go(d):
         env = {"CARGO_NET_OFFLINE": "true"}
         p = run(["cargo", "build", "--release", "--offline", "--bins"], 1800, cwd=HARNESS, env=env,
@@ -191,7 +216,7 @@ def tlc(workdir, module, cfg, workers=1, timeout=1800, env=None, extra=None, hea
     if env:
         e.update(env)
     cmd = ["tlc", "-workers", str(workers), "-metadir", meta, "-cleanup", "-noGenerateSpecTE",
-           "-config", cfg] + (extra or []) + [module]
+           "-checkpoint", "0", "-config", cfg] + (extra or []) + [module]
     p = run(cmd, timeout, cwd=workdir, env=e, ok_codes=None)
     shutil.rmtree(meta, ignore_errors=True)
     return p
@@ -491,7 +516,7 @@ def drive_plan(tier, seed):
         for i, h in enumerate(["const", "onebit", "identity", "sip", "default", "siprand"]):
             for j, prof in enumerate(["small", "medium", "wide", "churn", "large", "fifo"]):
                 steps = {"small": 6000, "medium": 6000, "wide": 4000, "churn": 4000, "large": 2500,
-                         "fifo": 6000}[prof]
+                         "fifo": 2000 if h == "const" else 6000}[prof]
                 base.append((prof, h, "owned" if (i + j) % 2 == 0 else "borrowed", steps))
     for n, (prof, h, k, steps) in enumerate(base):
         plan.append({"profile": prof, "hasher": h, "keyform": k, "steps": steps,
@@ -500,8 +525,47 @@ def drive_plan(tier, seed):
 
 
 def validate_trace(workdir, trace, timeout=3600, cfg="LruMemTrace.cfg", module="LruMemTrace.tla",
-                   heap="4g"):
-    """TLC trace validation; returns (done_lines, n_bad, bad_list, raw tail)"""
+                   heap="4g", chunk=1500):
+    """TLC trace validation.  A long trace is cut at reset lines (after which the specification's
+    state is the initial one again) into pieces of about `chunk` events, so that TLC's JSON
+    deserialisation stays within its heap; reported lines refer to the whole trace."""
+    if module != "LruMemTrace.tla":
+        return validate_one(workdir, trace, timeout, cfg, module, heap)
+    with open(trace) as fh:
+        lines = fh.readlines()
+    if len(lines) <= chunk * 2:
+        return validate_one(workdir, trace, timeout, cfg, module, heap)
+    pieces = []
+    start = 0
+    for i, raw in enumerate(lines):
+        if raw.startswith('{"reset"') or raw.startswith('{"fin"') or '"reset":true' in raw[:40]:
+            if i + 1 - start >= chunk:
+                pieces.append((start, i + 1))
+                start = i + 1
+    if start < len(lines):
+        pieces.append((start, len(lines)))
+    out = {"done": (0, 0), "bad": [], "ok": True, "tail": ""}
+    for n, (a, b) in enumerate(pieces):
+        part = "%s.part%d" % (trace, n)
+        with open(part, "w") as fh:
+            fh.writelines(lines[a:b])
+        v = validate_one(workdir, part, timeout, cfg, module, heap)
+        os.remove(part)
+        for bad in v["bad"]:
+            bad["line"] += a
+        out["bad"] += v["bad"]
+        if not v["ok"]:
+            out["ok"] = False
+            out["tail"] = v["tail"]
+            break
+        if v["done"]:
+            out["done"] = (out["done"][0] + v["done"][0], out["done"][1] + v["done"][1])
+    return out
+
+
+def validate_one(workdir, trace, timeout=3600, cfg="LruMemTrace.cfg", module="LruMemTrace.tla",
+                 heap="4g"):
+    """one TLC run over one trace file"""
     p = tlc(workdir, module, cfg, workers=1, timeout=timeout, env={"TRACE": trace}, heap=heap)
     bad = []
     done = None
@@ -539,12 +603,12 @@ def drop_partial_last_line(path):
 
 def limits():
     """preexec_fn for processes that execute the code under test: a corrupted cache must
-    not be able to eat the machine (address space 6 GiB, cpu time 150 s)"""
+    not be able to eat the machine (address space 6 GiB, cpu time 10 min)"""
     import resource
 
     def f():
         resource.setrlimit(resource.RLIMIT_AS, (6 << 30, 6 << 30))
-        resource.setrlimit(resource.RLIMIT_CPU, (150, 150))
+        resource.setrlimit(resource.RLIMIT_CPU, (600, 600))
     return f
 
 
@@ -571,7 +635,7 @@ def stage_drive(tier, name="drive", plan=None):
                        "--profile", job["profile"], "--hasher", job["hasher"], "--keyform", job["keyform"],
                        "--events", trace, "--script-out", script,
                        "--crash-rate", str(job["crash_rate"]), "--forget-rate", str(job["forget_rate"]),
-                       "--segment", str(job.get("segment", 100000 if job["profile"] == "fifo" else 500))]
+                       "--segment", str(job.get("segment", 1500 if job["profile"] == "fifo" else 500))]
                 p = subprocess.run(cmd, stdout=subprocess.PIPE, stderr=subprocess.PIPE, text=True, timeout=1800,
                                    preexec_fn=limits())
                 res = {"job": job, "trace": trace, "script": script, "driver_rc": p.returncode}
